@@ -8,12 +8,16 @@ they call (pinned module version, `generate/generate.go`):
 `AddLinuxResourcesHugepageLimit`, `AddLinuxResourcesUnified`, `SetLinuxResourcesPidsLimit`,
 `RemoveMount/AddMount/Mounts/ClearMounts`, `SetLinuxRootPropagation`.
 
-The main definitions transcribe the REPAIRED code (docs/fixes/C13-1..3.patch):
-  C13-1  `AdjustAnnotations` makes two passes over the map (removals, then sets);
-  C13-2  `AdjustArgs` drops the leading `""` marker written by `UpdateArgs`;
-  C13-3  `AdjustEnv`, `AdjustDevices`, `AdjustMounts` process every removal before any set.
-The `…Unfixed` definitions transcribe the code as it stands at the pinned commit; they are
-used by the `unfixed_*` witness theorems and by the driver's diagnosis.
+The main definitions transcribe the REPAIRED code:
+  * `AdjustAnnotations` makes two passes over the map, removals then sets
+    (/repo commit 1f50159 "fix: apply annotation removals before additions");
+  * `AdjustArgs` drops the leading `""` marker written by `UpdateArgs`
+    (/repo commit ad4e689 "fix: strip the UpdateArgs() replace marker");
+  * `AdjustEnv`, `AdjustDevices`, `AdjustMounts` process every removal before any set
+    (candidate patch docs/fixes/C13-1.patch, not yet in /repo).
+The `…Unfixed` definitions transcribe the code before each of these repairs (for the list
+families: the code as it stands in /repo); they are used by the `unfixed_*` witness theorems
+and by the driver's diagnosis.
 
 One function per field family, each a record update of `Oci.Spec` built from a *core*
 function on the field alone (`Annotations.apply`, `Env.apply`, `Devices.apply`,
@@ -390,28 +394,47 @@ def adjustResources (s : Spec) (r : Option LinuxResources) : Spec :=
     | some v => { s with pids := some v }
     | none => s
 
-/-- `Generator.AdjustBlockIOClass`: nothing without a class or a resolver; `""` clears;
-    otherwise the resolver's answer is installed. -/
-def adjustBlockIOClass (ext : Externals) (s : Spec) (c : Option Str) : Except GenError Spec :=
-  match c, ext.resolveBlockIO with
-  | none, _ => .ok s
-  | some _, none => .ok s
+namespace Resources
+
+/-- `AdjustBlockIOClass` on `Linux.Resources.BlockIO`: nothing without a class or without a
+    resolver; class `""` clears; otherwise the resolver's answer is installed, or its error
+    returned. -/
+def applyBlockIO (resolve : Option (Str → Except Unit Nat)) (old : Option Nat) (c : Option Str) :
+    Except GenError (Option Nat) :=
+  match c, resolve with
+  | none, _ => .ok old
+  | some _, none => .ok old
   | some c, some f =>
-    if c = [] then .ok { s with blockio := none }
+    if c = [] then .ok none
     else match f c with
-      | .ok b => .ok { s with blockio := some b }
+      | .ok b => .ok (some b)
       | .error _ => .error .blockio
+
+/-- `AdjustRdtClass` on `Linux.IntelRdt` (same shape). -/
+def applyRdt (resolve : Option (Str → Except Unit Str)) (old : Option Str) (c : Option Str) :
+    Except GenError (Option Str) :=
+  match c, resolve with
+  | none, _ => .ok old
+  | some _, none => .ok old
+  | some c, some f =>
+    if c = [] then .ok none
+    else match f c with
+      | .ok b => .ok (some b)
+      | .error _ => .error .rdt
+
+end Resources
+
+/-- `Generator.AdjustBlockIOClass`. -/
+def adjustBlockIOClass (ext : Externals) (s : Spec) (c : Option Str) : Except GenError Spec :=
+  match Resources.applyBlockIO ext.resolveBlockIO s.blockio c with
+  | .ok b => .ok { s with blockio := b }
+  | .error e => .error e
 
 /-- `Generator.AdjustRdtClass`. -/
 def adjustRdtClass (ext : Externals) (s : Spec) (c : Option Str) : Except GenError Spec :=
-  match c, ext.resolveRdt with
-  | none, _ => .ok s
-  | some _, none => .ok s
-  | some c, some f =>
-    if c = [] then .ok { s with rdt := none }
-    else match f c with
-      | .ok b => .ok { s with rdt := some b }
-      | .error _ => .error .rdt
+  match Resources.applyRdt ext.resolveRdt s.rdt c with
+  | .ok b => .ok { s with rdt := b }
+  | .error e => .error e
 
 /-! ## Mounts (`AdjustMounts`, `sortMounts`, `orderedMounts`) -/
 
